@@ -158,11 +158,13 @@ fn heap_expand_h<T: 'static>() {
     m.resize(a);
     let add: usize = kani::any();
     kani::assume(a <= usize::MAX - add);
-    let want = if a <= usize::MAX / 2 && a * 2 > a + add { a * 2 } else { a + add };
+    // doubling saturates (only reachable for zero-sized elements, whose capacity is notional)
+    let dbl = if a <= usize::MAX / 2 { a * 2 } else { usize::MAX };
+    let want = if dbl > a + add { dbl } else { a + add };
     kani::assume(fits::<T>(want));
     m.expand(add);
     kani::assert(m.size() >= a + add, "HeapMem::expand grows by at least `additional`");
-    kani::assert(m.size() >= a && (a > usize::MAX / 2 || m.size() >= a * 2 || add == 0 && m.size() == a || m.size() >= a + add), "HeapMem::expand at least doubles (amortised growth)");
+    kani::assert(m.size() >= dbl, "HeapMem::expand at least doubles (amortised growth)");
     kani::assert(m.size() == want, "HeapMem::expand: new capacity is max(2 x capacity, capacity + additional)");
     check_state::<T>(&m, want);
     core::mem::forget(m);
@@ -181,7 +183,8 @@ fn heap_expand_invalid_h<T: 'static>() {
     let add: usize = kani::any();
     let overflow = a > usize::MAX - add;
     if !overflow {
-        let want = if a <= usize::MAX / 2 && a * 2 > a + add { a * 2 } else { a + add };
+        let dbl = if a <= usize::MAX / 2 { a * 2 } else { usize::MAX };
+        let want = if dbl > a + add { dbl } else { a + add };
         kani::assume(!fits::<T>(want) && size_of::<T>() != 0);
     }
     m.expand(add);
